@@ -1,4 +1,5 @@
 import Blue.Model.Kvs
+import Blue.Proofs.SpecBounds
 import Blue.Driver.Util
 /-! Driver verbs for the store model (instance `kvs`): point reads, invariants I1 ∧ I2 and
     closedness of a chosen compaction, all evaluated on a dumped store state.
@@ -125,6 +126,53 @@ def tagged (keys : List (List Nat)) (s : RawState) (upper : Nat) (inputs : List 
     (s.files.filter (·.level == i + 1)).map fun f => (inputs.contains f.id, vers keys f.ents)
   memT ++ l0T ++ deeper
 
+/-- the versions of a state, each once, sorted by key ascending then timestamp descending -/
+def insertVer (v : Ver Nat) : List (Ver Nat) → List (Ver Nat)
+  | [] => [v]
+  | x :: t => if v == x then x :: t else if vlt Nat.blt v x then v :: x :: t else x :: insertVer v t
+
+def sortedVers (vs : List (Ver Nat)) : List (Ver Nat) := vs.foldl (fun acc v => insertVer v acc) []
+
+def parseBound (keys : List (List Nat)) (s : String) : Option (Bound Nat) :=
+  if s = "u" then some .unbounded
+  else match s.toList with
+    | 'i' :: h => (parseHex (String.ofList h)).map fun k => .included (rank keys k)
+    | 'e' :: h => (parseHex (String.ofList h)).map fun k => .excluded (rank keys k)
+    | _ => none
+
+def boundKeys (s : String) : List (List Nat) :=
+  match s.toList with
+  | 'i' :: h => (parseHex (String.ofList h)).toList
+  | 'e' :: h => (parseHex (String.ofList h)).toList
+  | _ => []
+
+def parseOp (keys : List (List Nat)) (s : String) : Option (Blue.Cursor.Op (Ver Nat)) :=
+  match s.toList with
+  | ['F'] => some .first
+  | ['L'] => some .last
+  | ['N'] => some .next
+  | ['P'] => some .prev
+  | 'S' :: h => (parseHex (String.ofList h)).map fun k => .seek (fun e => !Nat.blt e.1 (rank keys k))
+  | _ => none
+
+def opKeys (s : String) : List (List Nat) :=
+  match s.toList with
+  | 'S' :: h => (parseHex (String.ofList h)).toList
+  | _ => []
+
+def renderEntry (s : RawState) (keys : List (List Nat)) (v : Option (Ver Nat)) : String :=
+  match v with
+  | none => "none"
+  | some (r, t) =>
+    match (allEnts s).find? (fun e => rank keys e.key == r && e.ts == t) with
+    | none => "model-error"
+    | some e => hexOfBytes e.key ++ "@" ++ toString t ++ (match e.val with | none => "!" | some b => "=" ++ hexOfBytes b)
+
+def isTomb (s : RawState) (keys : List (List Nat)) (v : Ver Nat) : Bool :=
+  match (allEnts s).find? (fun e => rank keys e.key == v.1 && e.ts == v.2) with
+  | some e => e.val.isNone
+  | none => false
+
 def handle (toks : List String) : String :=
   match toks with
   | "load" :: rest =>
@@ -134,6 +182,20 @@ def handle (toks : List String) : String :=
       let keys := allKeys s qkeys
       let ks := toKState keys s
       " ".intercalate (qkeys.map fun q => renderHit s keys (kvsLoad ks (rank keys q) s.ts))
+    | _, _ => "bad-op"
+  | "scan" :: rest =>
+    -- kvs scan <state> :: <lo> <hi> :: <ops>
+    let (st, r1) := splitAtSep rest
+    let (bs, ops) := splitAtSep r1
+    match parseState st, bs with
+    | some s, [lo, hi] =>
+      let keys := allKeys s (boundKeys lo ++ boundKeys hi ++ ops.flatMap opKeys)
+      match parseBound keys lo, parseBound keys hi, allSome (ops.map (parseOp keys)) with
+      | some sb, some eb, some prog =>
+        let M := sortedVers (vers keys (allEnts s))
+        let shown := (M.filter (isLive M s.ts (isTomb s keys))).filter (inRange Nat.blt sb eb)
+        " ".intercalate ((Blue.Cursor.Ref.run ⟨shown, 0⟩ prog).map (renderEntry s keys))
+      | _, _, _ => "bad-op"
     | _, _ => "bad-op"
   | "inv" :: rest =>
     match parseState rest with
